@@ -29,37 +29,20 @@ def scratch_run(p):
         shutil.rmtree(ev, ignore_errors=True)
 
 
+JOBS = int(sys.argv[sys.argv.index("--jobs") + 1]) if "--jobs" in sys.argv else 1
+only = [a for a in only if not a.isdigit()]
+names = []
 for name in sorted(os.listdir(root)):
-    d = os.path.join(root, name)
-    p = os.path.join(d, "patch.diff")
-    if not os.path.isfile(p) or (only and name not in only):
-        continue
-    if SCRATCH:
-        r = scratch_run(p)
-        ok = r is not None
-    else:
-        ok = sh("git apply %s" % p, "/repo").returncode == 0
-    if not ok and not SCRATCH:
-        sh("git reset -q --hard HEAD", "/repo")
-        ok = sh("git apply --3way %s && git reset -q" % p, "/repo").returncode == 0
-    if not ok and not SCRATCH:
-        sh("git reset -q --hard HEAD; git clean -fdq -- src tests", "/repo")
-        ok = sh("patch -p1 --no-backup-if-mismatch -F3 < %s" % p, "/repo").returncode == 0
-    if not ok:
-        if not SCRATCH:
-            sh("git reset -q --hard HEAD; git clean -fdq -- src tests", "/repo")
-        res[name] = {"status": "patch-does-not-apply"}
-        print("%-12s PATCH-DOES-NOT-APPLY" % name)
-        continue
-    if not SCRATCH:
-        r = sh("./check ALL", "/verif")
-        sh("git reset -q --hard HEAD; git clean -fdq -- src tests", "/repo")
+    p = os.path.join(root, name, "patch.diff")
+    if os.path.isfile(p) and not (only and name not in only):
+        names.append(name)
+
+
+def parse(r):
     fired = {}
     cur = None
     if "CHECK-INPUT-ERROR" in r.stdout:
-        res[name] = {"status": "does-not-compile"}
-        print("%-12s DOES-NOT-COMPILE" % name)
-        continue
+        return {"status": "does-not-compile"}
     for line in r.stdout.splitlines():
         m = re.match(r"\s+(VIOLATION|ANCHOR-MISSING) (\S+) ", line)
         if m:
@@ -67,7 +50,45 @@ for name in sorted(os.listdir(root)):
         m2 = re.match(r"VIOLATION property=(\S+) ", line)
         if m2 and cur:
             fired.setdefault(m2.group(1), []).append(cur[0] + ("!" if cur[1] == "ANCHOR-MISSING" else ""))
-    res[name] = {"status": "ran", "fired": {k: sorted(set(v)) for k, v in fired.items()}}
-    print("%-12s %s" % (name, " ".join("%s[%s]" % (k, ",".join(sorted(set(v)))) for k, v in sorted(fired.items())) or "-- silent --"))
+    return {"status": "ran", "fired": {k: sorted(set(v)) for k, v in fired.items()}}
+
+
+def show(name, r):
+    if r["status"] != "ran":
+        print("%-12s %s" % (name, r["status"].upper()), flush=True)
+    else:
+        print("%-12s %s" % (name, " ".join("%s[%s]" % (k, ",".join(v)) for k, v in sorted(r["fired"].items())) or "-- silent --"), flush=True)
+
+
+def one_scratch(name):
+    r = scratch_run(os.path.join(root, name, "patch.diff"))
+    return name, ({"status": "patch-does-not-apply"} if r is None else parse(r))
+
+
+if SCRATCH:
+    from concurrent.futures import ThreadPoolExecutor
+    with ThreadPoolExecutor(max_workers=JOBS) as ex:
+        for name, r in ex.map(one_scratch, names):
+            res[name] = r
+            show(name, r)
+else:
+    for name in names:
+        p = os.path.join(root, name, "patch.diff")
+        ok = sh("git apply %s" % p, "/repo").returncode == 0
+        if not ok:
+            sh("git reset -q --hard HEAD", "/repo")
+            ok = sh("git apply --3way %s && git reset -q" % p, "/repo").returncode == 0
+        if not ok:
+            sh("git reset -q --hard HEAD; git clean -fdq -- src tests", "/repo")
+            ok = sh("patch -p1 --no-backup-if-mismatch -F3 < %s" % p, "/repo").returncode == 0
+        if not ok:
+            sh("git reset -q --hard HEAD; git clean -fdq -- src tests", "/repo")
+            res[name] = {"status": "patch-does-not-apply"}
+            show(name, res[name])
+            continue
+        r = sh("./check ALL", "/verif")
+        sh("git reset -q --hard HEAD; git clean -fdq -- src tests", "/repo")
+        res[name] = parse(r)
+        show(name, res[name])
 if out:
     json.dump(res, open(out, "w"), indent=1)
